@@ -8,3 +8,9 @@ T=${1:-quick}
 /verif/tools/mut.py benign4 --patch /verif/benign/b4/patch.diff --expect-silent --tier $T --check C08 C17 C18
 /verif/tools/mut.py benign5 --patch /verif/benign/b5/patch.diff --expect-silent --tier $T --check C09 C19 C20
 /verif/tools/mut.py benign6 --patch /verif/benign/b6/patch.diff --expect-silent --tier $T --check C02 C03 C07 C10 C15
+/verif/tools/mut.py benign7 --patch /verif/benign/b7/patch.diff --expect-silent --tier $T --check C01 C02 C04 C05 C06 C07 C10 C11 C12 C13 C14 C15 C16
+/verif/tools/mut.py benign8 --patch /verif/benign/b8/patch.diff --expect-silent --tier $T --check C01 C02 C04 C05 C06 C07 C11 C12 C13 C16
+/verif/tools/mut.py benign9 --patch /verif/benign/b9/patch.diff --expect-silent --tier $T --check C01 C04 C05 C06 C07 C10 C14 C15
+/verif/tools/mut.py benign10 --patch /verif/benign/b10/patch.diff --expect-silent --tier $T --check C08 C17 C18
+/verif/tools/mut.py benign11 --patch /verif/benign/b11/patch.diff --expect-silent --tier $T --check C09 C19 C20
+/verif/tools/mut.py benign12 --patch /verif/benign/b12/patch.diff --expect-silent --tier $T --check C01 C06 C07 C10 C14 C15
